@@ -450,14 +450,14 @@ def _hyp_shard(ctx, n: int) -> None:
 
 
 # small exhaustive grid: busy(w1) .. gap .. busy(w2) around a group of sends
-_GRID_W = [0, 5, 20, 50, 100]
-_GRID_GAP = [0, 5, 11, 30, 60, 120]
+_GRID_W = [0, 20, 100]
+_GRID_GAP = [0, 5, 11, 30, 120]
 _GRID_SENDS = [("conc", 1), ("conc", 3), ("seq", 2)]
 
 
-def _grid_shard(ctx, w1: int) -> None:
+def _grid_shard(ctx, w1: int, w2: int) -> None:
     n = nt = 0
-    for w2 in _GRID_W:
+    if True:
         for g1 in _GRID_GAP:
             for g2 in _GRID_GAP:
                 for mode, k in _GRID_SENDS:
@@ -476,12 +476,12 @@ def _grid_shard(ctx, w1: int) -> None:
                             if info and info.get("held"):
                                 nt += 1
     ctx.bulk(n, nt, "grid:2-busy-1-send-group")
-    ctx.sample({"grid": {"w1": w1, "ops_example": [["busy", 0, w1], ["busy", 11, 50], ["conc", 30, 3]]}})
+    ctx.sample({"grid": {"w1": w1, "w2": w2, "ops_example": [["busy", 0, w1], ["busy", 11, w2], ["conc", 30, 3]]}})
 
 
 def run(ctx) -> None:
-    parallel(ctx, _grid_shard, [(w,) for w in _GRID_W])
-    parallel(ctx, _hyp_shard, [(ctx.n(250, 4000),)] * 16)
+    parallel(ctx, _grid_shard, [(w1, w2) for w1 in _GRID_W for w2 in _GRID_W])
+    parallel(ctx, _hyp_shard, [(ctx.n(150, 4000),)] * 16)
     ctx.exhaustive = False
 
 
